@@ -609,3 +609,157 @@ Example calculate_chunks_truncated_ex :
   map (fun ob => seg_values ob 3 (Some [([x61], 10); ([x62], 2)])) objs = [30; 12] /\
   map (fun ob => seg_values ob 3 (Some [([x61], 7)])) objs = [27; 10].
 Proof. vm_compute. repeat split. Qed.
+
+(* ======================================================================== *)
+(* One iteration of the metadata loop, factored                              *)
+(* ======================================================================== *)
+
+(* everything [md_loop] does with a segment once its lead-in positions and its
+   metadata tokens are known: a function of the tokens and the reader state
+   only, not of the byte source *)
+Definition seg_step (want_index : bool) (seg_pos toc dp np : Z) (inc : bool)
+           (md : option (list entry)) (prev_seg : option (list sobj)) (prev_index : alist nat)
+           (st : rstate) : res (list sobj * alist nat * rstate) :=
+  do '(objs, props) <- read_segment_objects toc md (rs_prev_objs st) prev_seg;
+  let '(idx, cache) :=
+      match md with
+      | None => (prev_index, rs_cache st)
+      | Some _ => if want_index then get_index (rs_cache st) objs else ([], rs_cache st)
+      end in
+  do '(nch, fin) <- calculate_chunks toc inc objs (np - dp);
+  do '(po, om) <- update_object_metadata objs nch fin (rs_prev_objs st) (rs_om st);
+  let om' := update_object_properties props om in
+  let seg := mkSeg seg_pos toc np dp inc objs idx nch fin in
+  Ok (objs, idx, mkRstate (rs_segments st ++ [seg]) po om' cache (rs_version st)).
+
+Definition set_version (st : rstate) (v : Z) : rstate :=
+  mkRstate (rs_segments st) (rs_prev_objs st) (rs_om st) (rs_cache st)
+           (match rs_version st with Some v0 => Some v0 | None => Some v end).
+
+Definition read_md (src : bytes) (src_pos toc : Z) : res (option (list entry)) :=
+  if toc_has toc TOC_META
+  then do '(es, _) <- parse_metadata (toc_endian toc) (drop (src_pos + 28) src); Ok (Some es)
+  else Ok None.
+
+Lemma md_loop_unfold f src is_index fs w src_pos seg_pos prev_seg prev_index st :
+  md_loop (S f) src is_index fs w src_pos seg_pos prev_seg prev_index st =
+  if blen (read_at src_pos 28 src) <? 28 then Ok st
+  else
+    do l <- parse_leadin (read_at src_pos 28 src);
+    if negb (bytes_eqb (l_tag l) (if is_index then TAG_INDEX else TAG_DATA)) then Err EValue
+    else
+      let st1 := set_version st (l_version l) in
+      do lr <- lead_positions seg_pos l fs;
+      match lr with
+      | LeadEof => Ok st1
+      | LeadOk dp np inc =>
+        do md <- read_md src src_pos (l_toc l);
+        do '(objs, idx, st') <- seg_step w seg_pos (l_toc l) dp np inc md prev_seg prev_index st1;
+        md_loop f src is_index fs w (if is_index then src_pos + (dp - seg_pos) else np) np
+                (Some objs) idx st'
+      end.
+Proof.
+  cbn [md_loop]. cbv zeta.
+  destruct (blen (read_at src_pos 28 src) <? 28); [reflexivity|].
+  destruct (parse_leadin (read_at src_pos 28 src)) as [l|e]; cbn [bind]; [|reflexivity].
+  destruct (negb (bytes_eqb (l_tag l) (if is_index then TAG_INDEX else TAG_DATA))); [reflexivity|].
+  fold (set_version st (l_version l)).
+  destruct (lead_positions seg_pos l fs) as [[|dp np inc]|e]; cbn [bind]; try reflexivity.
+  unfold read_md, seg_step.
+  destruct (toc_has (l_toc l) TOC_META).
+  - destruct (parse_metadata (toc_endian (l_toc l)) (drop (src_pos + 28) src)) as [[es r]|e];
+      cbn [bind]; [|reflexivity].
+    match goal with |- context [read_segment_objects ?a ?b ?c ?d] =>
+                    destruct (read_segment_objects a b c d) as [[objs props]|e] end;
+      cbn [bind]; [|reflexivity].
+    match goal with |- context [if w then ?a else ?b] => destruct (if w then a else b) as [idx cache] end.
+    match goal with |- context [calculate_chunks ?a ?b ?c ?d] =>
+                    destruct (calculate_chunks a b c d) as [[nch fin]|e] end;
+      cbn [bind]; [|reflexivity].
+    match goal with |- context [update_object_metadata ?a ?b ?c ?d ?e] =>
+                    destruct (update_object_metadata a b c d e) as [[po om]|e'] end;
+      cbn [bind]; reflexivity.
+  - cbn [bind].
+    match goal with |- context [read_segment_objects ?a ?b ?c ?d] =>
+                    destruct (read_segment_objects a b c d) as [[objs props]|e] end;
+      cbn [bind]; [|reflexivity].
+    match goal with |- context [calculate_chunks ?a ?b ?c ?d] =>
+                    destruct (calculate_chunks a b c d) as [[nch fin]|e] end;
+      cbn [bind]; [|reflexivity].
+    match goal with |- context [update_object_metadata ?a ?b ?c ?d ?e] =>
+                    destruct (update_object_metadata a b c d e) as [[po om]|e'] end;
+      cbn [bind]; reflexivity.
+Qed.
+
+(* ======================================================================== *)
+(* A6 -- where the cut falls decides the status of the last segment           *)
+(* ======================================================================== *)
+
+(* One segment, explicit end, metadata inside the declared extent.  In a file
+   cut to [k] bytes:
+   - the segment is dropped when its metadata does not survive ([k < dp]);
+   - otherwise it is read up to [min k np] and flagged incomplete exactly when
+     the cut is inside its raw data ([dp <= k < np]);
+   - a segment lying wholly before the cut is analysed as in the complete file. *)
+Theorem cut_segment_status seg_pos l k :
+  forall (Hexplicit : l_next l <> 0xFFFFFFFFFFFFFFFF) (Hraw : l_raw l <= l_next l),
+    let dp := seg_pos + 28 + l_raw l in
+    let np := seg_pos + l_next l + 28 in
+    (k < dp -> lead_positions seg_pos l (Some k) = Ok LeadEof) /\
+    (dp <= k ->
+     exists inc, lead_positions seg_pos l (Some k) = Ok (LeadOk dp (Z.min k np) inc) /\
+                 (inc = true <-> dp <= k < np)) /\
+    (forall n, np <= k <= n ->
+               lead_positions seg_pos l (Some k) = lead_positions seg_pos l (Some n) /\
+               lead_positions seg_pos l (Some k) = Ok (LeadOk dp np false)).
+Proof.
+  intros. assert (Hle : dp <= np) by (unfold dp, np; lia).
+  assert (Hk : forall k, lead_positions seg_pos l (Some k) =
+                         Ok (if k <? np then (if k <? dp then LeadEof else LeadOk dp k true)
+                             else LeadOk dp np false)).
+  { intros k0. apply (lead_positions_cut seg_pos l k0 Hexplicit). }
+  split; [|split].
+  - intros H. rewrite Hk.
+    replace (k <? np) with true by lia. replace (k <? dp) with true by lia. reflexivity.
+  - intros H. rewrite Hk. destruct (k <? np) eqn:E1.
+    + replace (k <? dp) with false by lia. exists true.
+      rewrite Z.min_l by lia. split; [reflexivity|]. split; [lia|reflexivity].
+    + exists false. rewrite Z.min_r by lia. split; [reflexivity|]. split; [discriminate|lia].
+  - intros n Hn. rewrite !Hk.
+    replace (k <? np) with false by lia. replace (n <? np) with false by lia. split; reflexivity.
+Qed.
+
+(* with the length-unknown marker: dropped or incomplete, never complete *)
+Theorem cut_segment_status_unknown seg_pos l k :
+  forall (Hmarker : l_next l = 0xFFFFFFFFFFFFFFFF),
+    let dp := seg_pos + 28 + l_raw l in
+    (k < dp -> lead_positions seg_pos l (Some k) = Ok LeadEof) /\
+    (dp <= k -> lead_positions seg_pos l (Some k) = Ok (LeadOk dp k true)).
+Proof.
+  intros. pose proof (lead_positions_unknown seg_pos l k Hmarker) as Hk. cbv zeta in Hk. fold dp in Hk.
+  split; intros H; rewrite Hk.
+  - replace (k <? dp) with true by lia. reflexivity.
+  - replace (k <? dp) with false by lia. reflexivity.
+Qed.
+
+(* the metadata loop stops, keeping the segments read so far, when fewer than
+   28 bytes are left or when the lead-in analysis says the metadata is cut *)
+Theorem md_loop_stops f src is_index fs w src_pos seg_pos prev_seg prev_index st :
+  (blen (read_at src_pos 28 src) < 28 ->
+   md_loop (S f) src is_index fs w src_pos seg_pos prev_seg prev_index st = Ok st) /\
+  (forall l,
+      blen (read_at src_pos 28 src) = 28 ->
+      parse_leadin (read_at src_pos 28 src) = Ok l ->
+      bytes_eqb (l_tag l) (if is_index then TAG_INDEX else TAG_DATA) = true ->
+      lead_positions seg_pos l fs = Ok LeadEof ->
+      md_loop (S f) src is_index fs w src_pos seg_pos prev_seg prev_index st
+      = Ok (set_version st (l_version l)) /\
+      rs_segments (set_version st (l_version l)) = rs_segments st).
+Proof.
+  split.
+  - intros H. rewrite md_loop_unfold. replace (_ <? 28) with true by lia. reflexivity.
+  - intros l Hlen Hparse Htag Hlead. rewrite md_loop_unfold.
+    rewrite Hlen. change (28 <? 28) with false. cbv iota.
+    rewrite Hparse. cbn [bind]. rewrite Htag. cbn [negb]. rewrite Hlead. cbn [bind].
+    split; reflexivity.
+Qed.
